@@ -222,6 +222,16 @@ def e3_never_inline(ctx, rep):
                     where_ok = True
                     how = "closure handed to dispatch_task/dispatch_thunk"
         rep.check(where_ok and b.path not in gbodies, R, "payload-called-on-worker:" + fn, s.where, "effect payload is called inside a %s" % how, "effect payload is called in %s, which is not a closure submitted to the pool: it runs in the caller's context" % fn)
+        if b.is_closure() and where_ok:
+            # the submitted job runs the payload on every path (no "skip it when ..." exits)
+            pe = ctx.paths(b)
+            rep.stats["paths"] += len(pe.paths)
+            for p in pe.paths:
+                if p.end != "return":
+                    continue
+                cnt = len([e for e in p.calls() if e.site is not None and e.site.bb == s.bb and e.site.body.path == b.path])
+                rep.check(cnt == 1, R, "job-runs-its-payload-on-every-path:" + fn, s.where, "path [%s] of the job calls the payload once" % p.describe(),
+                          "path [%s] of the submitted job calls the payload %d time(s): the effect is silently skipped (or repeated)" % (p.describe(), cnt))
         may, must = ctx.lr(b).held_at(s.bb)
         rep.check(not may, R, "payload-called-without-locks:" + fn, s.where, "no store lock held while the payload runs", "payload runs while holding %s" % sorted(may))
     rep.floor(R, "payload call sites", n, 3)
